@@ -183,7 +183,7 @@ theorem mutate_canonical_empty {C : Cfg σ κ ν} {cmp : κ → κ → Ordering}
     have hemp : es.isEmpty = false := by cases es <;> simp_all
     have hr : ∃ r : Region (ItemH κ ν 0), regionsAt C cmp 0 [([] : NodeH κ ν 0)] es = [r] ∧ r.dirty = true ∧
         r.new = applyEdits cmp [] es :=
-      ⟨_, rfl, by show ((!false && !es.isEmpty) || _) = true; simp [hemp], rfl⟩
+      ⟨_, rfl, by show (((!false && !es.isEmpty) || _) || !true) = true; simp [hemp], rfl⟩
     obtain ⟨r, hr1, hr2, hr3⟩ := hr
     have hchunks : ((C 0).incr (C 0).fresh (regionsAt C cmp 0 [([] : NodeH κ ν 0)] es)).flatMap Out.chunks
         = lvl C 0 (applyEdits cmp [] es) := by
